@@ -1,14 +1,94 @@
-"""C01 - serialised child structure is always schema-valid (see mc/structcheck.py, DESIGN 4 C01)."""
-from mc import structcheck
+"""C01 - serialised child structure is always schema-valid (see mc/structcheck.py, DESIGN 4 C01).
+
+Part 1: structural exploration of every type (profiles full / adds / fwd / deep), oracle: every successful to_string emits
+a word of the reference automaton.  Part 2 (nested documents): for every (parent type P, element-content child q):
+a complete checked P holding a CHECKED q whose own children go through every history of depth <= 2 (thorough 3);
+whenever P.to_string(intelligent_choice off/on) returns, the child sequence of P and of the nested q must both be
+accepted by their automata (validity of a tree is the conjunction of per-node validity: the final check recurses)."""
+import itertools
+import collections
+import xml.etree.ElementTree as ET
+
+from mc import core, impl, explore, structcheck
+from mc.impl import nfa, call
+from mc.checks.C18 import word_with, pairs
 
 PROFILES = [('full', 4000, 60000), ('adds', 3000, 40000), ('fwd', 20000, 200000), ('deep', 70000, 600000)]
+NEST_DEPTH = {'quick': 2, 'thorough': 3}
+
+
+def work_nested(arg):
+    chunk, depth = arg
+    vio = []
+    oc = collections.Counter()
+    for (P, q, tq) in chunk:
+        w = word_with(P, q)
+        if w is None:
+            continue
+        sig = explore.reduced_alphabet(tq)[:5]
+        ops = [('A', a) for a in sig] + [('R', 0)]
+        for k in range(0, depth + 1):
+            for hist in itertools.product(ops, repeat=k):
+                def build():
+                    p = impl.fresh(P)
+                    qst = None
+                    for a in w:
+                        if a == q and qst is None:
+                            qst = impl.State(impl.child(q, 'checked'))
+                            p.add_child(qst.el)
+                        else:
+                            p.add_child(impl.minimal(a))
+                    for op in hist:
+                        impl.apply(qst, op)
+                    return p, qst
+                b = call(build)
+                if not b.ok:
+                    oc['not_buildable'] += 1
+                    continue
+                for ic in (False, True):
+                    p, qst = b.value if not ic else call(build).value
+                    o = call(p.to_string, ic) if ic else call(p.to_string)
+                    oc['nested_serialisations'] += 1
+                    if not o.ok:
+                        oc['refused'] += 1
+                        continue
+                    oc['returned'] += 1
+                    try:
+                        root = ET.fromstring(o.value)
+                    except ET.ParseError:
+                        vio.append({'scope': P, 'kind': 'invalid-child-sequence', 'key': [P, q, [list(x) for x in hist], ic, 'not-well-formed']})
+                        continue
+                    tags = [c.tag for c in root]
+                    qs = [c for c in root if c.tag == q]
+                    qtags = [c.tag for c in qs[0]] if qs else None
+                    if not nfa(P).accepts(tags):
+                        vio.append({'scope': P, 'kind': 'invalid-child-sequence', 'key': [P, q, [list(x) for x in hist], ic, 'parent', tags]})
+                    elif qtags is None or not nfa(tq).accepts(qtags):
+                        vio.append({'scope': P, 'kind': 'invalid-child-sequence', 'key': [P, q, [list(x) for x in hist], ic, 'nested', qtags]})
+    return vio, dict(oc)
 
 
 def run(tier):
-    return structcheck.run_struct('C01', tier, 'C01', PROFILES,
+    def extra(run_, tot, ostats, guards, samples):
+        ps = pairs()
+        for vio, oc in core.pmap(work_nested, [(ps[i:i + 4], NEST_DEPTH[tier]) for i in range(0, len(ps), 4)]):
+            run_.add_violations(vio)
+            for k, v in oc.items():
+                ostats['nested:' + k] += v
+        tot['transitions'] += ostats['nested:nested_serialisations']
+        samples.append({'nested': ['measure', 'note', [['A', 'pitch'], ['R', 0]], 'intelligent_choice off/on']})
+        if ostats['nested:returned'] == 0 or ostats['nested:refused'] == 0:
+            guards.append('nested part degenerate')
+    return structcheck.run_struct('C01', tier, 'C01', PROFILES, extra=extra,
                                   min_guard={'serialisation_ok': 'no successful serialisation at all',
                                              'serialisation_refused': 'no refused serialisation at all'})
 
 
 def replay(rec):
-    return structcheck.replay_struct(rec, 'C01')
+    if 'trace' in rec:
+        return structcheck.replay_struct(rec, 'C01')
+    from mc.ref import xsd as R
+    P, q = rec['key'][0], rec['key'][1]
+    vio, oc = work_nested(([(P, q, R.element_type(q)[1])], 3))
+    hit = [v for v in vio if core.jkey(v['key']) == core.jkey(rec['key'])]
+    return {'reproduced': bool(hit), 'observed': hit[:1]}
